@@ -44,6 +44,8 @@ def main():
     missed_first = [k for k, m in metas if "miss" in str(m.get("first_attempt", "")).lower() or "MISSED" in m.get("detected_by", "")]
     nofail_first = [k for k, m in metas if "no-failing-input" in str(m.get("first_attempt", ""))]
     final_missed = [k for k, m in metas if m.get("final") == "missed"]
+    benign0 = [k for k, m in metas if m.get("after_fix_round")]
+    missed_first = [k for k in missed_first if k not in final_missed and k not in benign0]
     pending = [k for k, m in metas if m.get("detected_by", "").startswith("pending")]
     benign = [k for k, m in metas if m.get("after_fix_round")]
     other_prop = [k for k, m in metas if m.get("detected_by", "") and not m["detected_by"].startswith(m.get("property", "?") + " ") and k not in final_missed and k not in pending]
